@@ -1359,3 +1359,152 @@ def make_feeds(rng, info, binding=None, style=None, which=0):
                 shape.append(d)
         feeds[i["name"]] = example_input(rng, np.dtype(i["dtype"]), shape, style)
     return feeds
+
+
+# ====================================================================== shape-driven motifs (symbolic mode, C09)
+def s_expand_before_binary(g):
+    """Expand(x, Shape(y)) feeding a binary op with y (expand-before-binary rules, strategies 1-3)."""
+    y = g.pick(lambda v: _f32(v) and v.rank >= 1)
+    x = g.pick(lambda v: _f32(v) and v.rank <= y.rank and all(
+        _np_bc_to(a.shape, b.shape) for a, b in zip(v.arrs, y.arrs)))
+    form = g.rng.choice(["shape_of", "const", "concat_dims"])
+    if form == "shape_of":
+        s = g.add("Shape", [y], mag=8)
+    elif form == "const":
+        if not y.static():
+            raise Bail("needs static")
+        s = g.i64(list(y.shape))
+    else:
+        sh = g.add("Shape", [y], mag=8)
+        parts = []
+        for i in range(y.rank):
+            parts.append(g.add("Slice", [sh, g.i64([i]), g.i64([i + 1])], mag=8))
+        s = g.add("Concat", parts, axis=0, mag=8) if len(parts) > 1 else parts[0]
+    e = g.add("Expand", [x, s], mag=x.mag)
+    g.hit("motif:expand_before_binary:" + form)
+    op = g.rng.choice(["Add", "Mul", "Sub", "Max", "Where"])
+    if op == "Where":
+        c = g.add("Greater", [y, g.const(np.array(0.0, dtype=F32))], mag=1)
+        return g.add("Where", [c, e, y], mag=max(x.mag, y.mag))
+    ins = [e, y] if g.rng.random() < 0.5 else [y, e]
+    return g.add(op, ins, mag=x.mag * y.mag + x.mag + y.mag)
+
+
+def _np_bc_to(a, b):
+    try:
+        return np.broadcast_shapes(a, b) == tuple(b)
+    except ValueError:
+        return False
+
+
+def s_reshape_by_shape(g):
+    """Reshape(x, f(Shape(x))) — identity / materialisable targets."""
+    x = g.pick(lambda v: v.rank >= 1)
+    s = g.add("Shape", [x], mag=8)
+    form = g.rng.choice(["identity", "abs", "cast", "head_minus1", "swap"])
+    g.hit("motif:reshape_by_shape:" + form)
+    attrs = {}
+    if g.opset >= 14 and g.rng.random() < 0.3:
+        attrs["allowzero"] = g.rng.choice([0, 1])
+    if form == "identity":
+        return g.add("Reshape", [x, s], mag=x.mag, **attrs)
+    if form == "abs":
+        return g.add("Reshape", [x, g.add("Abs", [s], mag=8)], mag=x.mag, **attrs)
+    if form == "cast":
+        c = g.add("Cast", [g.add("Cast", [s], to=TP.INT32, mag=8)], to=TP.INT64, mag=8)
+        return g.add("Reshape", [x, c], mag=x.mag, **attrs)
+    if form == "head_minus1":
+        head = g.add("Slice", [s, g.i64([0]), g.i64([1])], mag=8)
+        return g.add("Reshape", [x, g.add("Concat", [head, g.i64([-1])], axis=0, mag=8)], mag=x.mag)
+    if x.rank < 2:
+        raise Bail("rank")
+    a = g.add("Gather", [s, g.i64([x.rank - 1])], mag=8)
+    b = g.add("Slice", [s, g.i64([0]), g.i64([x.rank - 1])], mag=8)
+    y = g.add("Transpose", [x], perm=[x.rank - 1] + list(range(x.rank - 1)), mag=x.mag)
+    return g.add("Reshape", [y, g.add("Concat", [a, b], axis=0, mag=8)], mag=x.mag)
+
+
+def s_slice_by_shape(g):
+    """Slice whose ends come from Shape (collapse-slice rules)."""
+    x = g.pick(lambda v: v.rank >= 1)
+    ax = g.rng.randrange(x.rank)
+    s = g.add("Shape", [x], mag=8)
+    d = g.add("Slice", [s, g.i64([ax]), g.i64([ax + 1])], mag=8)
+    form = g.rng.choice(["full", "full_step", "head"])
+    g.hit("motif:slice_by_shape:" + form)
+    if form == "full":
+        return g.add("Slice", [x, g.i64([0]), d, g.i64([ax])], mag=x.mag)
+    if form == "full_step":
+        return g.add("Slice", [x, g.i64([0]), d, g.i64([ax]), g.i64([1])], mag=x.mag)
+    return g.add("Slice", [x, g.i64([0]), g.add("Sub", [d, g.i64([1])], mag=8), g.i64([ax])], mag=x.mag)
+
+
+def s_scatter_all(g):
+    """ScatterND that overwrites everything along axis 0 (redundant-scatter rules)."""
+    x = g.pick(lambda v: _f32(v) and v.rank >= 1 and all(a.shape[0] >= 1 for a in v.arrs))
+    upd = g.pick(lambda v: _f32(v) and all(a.shape == b.shape for a, b in zip(v.arrs, x.arrs)))
+    form = g.rng.choice(["range_dyn", "static"])
+    g.hit("motif:scatter_all:" + form)
+    if form == "static":
+        if not x.static():
+            raise Bail("static")
+        idx = g.i64(np.arange(x.shape[0]).reshape(-1, 1))
+    else:
+        s = g.add("Shape", [x], mag=8)
+        n = g.add("Gather", [s, g.const(np.array(0, dtype=np.int64))], mag=8)
+        r = g.add("Range", [g.const(np.array(0, dtype=np.int64)), n, g.const(np.array(1, dtype=np.int64))], mag=8)
+        idx = g.add("Unsqueeze", [r, g.i64([-1])], mag=8) if g.opset >= 13 else g.add("Unsqueeze", [r], axes=[1], mag=8)
+    return g.add("ScatterND", [x, idx, upd], mag=max(x.mag, upd.mag))
+
+
+def s_matmul_reshape(g):
+    """Reshape -> MatMul -> Reshape (broadcast-to-matmul rules)."""
+    x = g.pick(lambda v: _f32(v) and v.rank == 3 and v.static())
+    b, m, k = x.shape
+    n = g.rng.choice([2, 3])
+    w = g.const(np.array([g.rng.choice([0.0, 1.0, -1.0, 0.5]) for _ in range(k * n)], dtype=F32).reshape(k, n))
+    g.hit("motif:matmul_reshape")
+    x2 = g.add("Reshape", [x, g.i64([b * m, k])], mag=x.mag)
+    y = g.add("MatMul", [x2, w], mag=x.mag * k)
+    return g.add("Reshape", [y, g.i64([b, m, n])], mag=y.mag)
+
+
+def s_size_range(g):
+    x = g.pick(lambda v: v.rank >= 1)
+    g.hit("motif:size_range")
+    n = g.add("Size", [x], mag=4096)
+    s = g.add("Shape", [x], mag=8)
+    p = g.add("ReduceProd", [s], keepdims=0, mag=4096)
+    return g.add("Sub", [n, p], mag=8192)
+
+
+def s_squeeze_unsqueeze(g):
+    if g.opset < 13:
+        raise Bail("opset")
+    x = g.pick(lambda v: v.rank <= 3)
+    ax = g.rng.randrange(0, x.rank + 1)
+    g.hit("motif:squeeze_unsqueeze")
+    y = g.add("Unsqueeze", [x, g.i64([ax])], mag=x.mag)
+    return g.add("Squeeze", [y, g.i64([ax])] if g.rng.random() < 0.7 else [y], mag=x.mag)
+
+
+SYM_MOTIFS = [
+    (s_expand_before_binary, 8), (s_reshape_by_shape, 8), (s_slice_by_shape, 5), (s_scatter_all, 3), (s_matmul_reshape, 2),
+    (s_size_range, 2), (s_squeeze_unsqueeze, 2), (m_shape_chain, 8), (op_expand, 5), (op_reshape, 4), (op_shape, 3),
+    (op_constant_of_shape, 2), (m_noop_arith, 3), (m_identity_out, 2), (op_gather, 2), (op_concat, 2), (op_slice, 2),
+]
+SYM_TABLE = [(f, w) for f, w in BASIC_OPS if f not in (op_conv, op_pool, op_sequence, op_topk, op_nonzero)] + SYM_MOTIFS + \
+    [(op_if, 1), (m_reshape_reshape, 2), (m_transpose_transpose, 2), (m_cast_cast, 1), (m_const_fold_chain, 2)]
+
+
+def symbols_of(info):
+    """Names of the bindable dims of a generated symbolic model: 'N','M','K' and '?k' for unnamed dims."""
+    syms, unn = [], 0
+    for i in info["inputs"]:
+        for d in i["decl"]:
+            if isinstance(d, str) and d not in syms:
+                syms.append(d)
+            elif d is None:
+                syms.append(f"?{unn}")
+                unn += 1
+    return syms
